@@ -51,9 +51,12 @@ func c04server(c *evid.Ctx) {
 		zeroNet := &net.UDPAddr{IP: net.IP{0, byte(r.Intn(256)), 3, 4}, Port: r.Port()}
 		blocked := &net.UDPAddr{IP: net.IP{66, 77, byte(r.Intn(256)), 9}, Port: r.Port()}
 		insecure := &net.UDPAddr{IP: r.PublicIPv4(), Port: r.Port()}
+		zeroNetMapped := &net.UDPAddr{IP: gen.V4Mapped(net.IP{0, byte(r.Intn(256)), 5, 6}), Port: r.Port()}
+		blockedMapped := &net.UDPAddr{IP: gen.V4Mapped(net.IP{66, 77, byte(r.Intn(256)), 10}), Port: r.Port()}
 		forbidden[port0.String()] = "port 0"
 		forbidden[zeroNet.String()] = "0.x.x.x"
 		forbidden[blocked.String()] = "blocklisted"
+		forbiddenRaw := map[string]string{string(zeroNetMapped.IP) + fmt.Sprint(zeroNetMapped.Port): "0.x.x.x in v4-mapped form", string(blockedMapped.IP) + fmt.Sprint(blockedMapped.Port): "blocklisted, v4-mapped form"}
 		if enforce {
 			forbidden[insecure.String()] = "only ever listed with an ID that is not valid for its IP"
 		}
@@ -95,9 +98,12 @@ func c04server(c *evid.Ctx) {
 				bad[0] ^= 0xff
 			}
 			add(bad, insecure)
+			var nodes6 []byte
+			nodes6 = append(nodes6, srv.CompactNode(lr.ID(), zeroNetMapped.IP, zeroNetMapped.Port)...)
+			nodes6 = append(nodes6, srv.CompactNode(mkID(blockedMapped.IP), blockedMapped.IP, blockedMapped.Port)...)
 			sender := mkID(d.To.IP)
 			mu.Unlock()
-			n.Conn.Inject(srv.Response(t, benc.Dict{"id": sender, "nodes": string(nodes), "token": "tok"}), d.To)
+			n.Conn.Inject(srv.Response(t, benc.Dict{"id": sender, "nodes": string(nodes), "nodes6": string(nodes6), "token": "tok"}), d.To)
 			return nil
 		})
 		for _, op := range []string{"bootstrap", "announce"} {
@@ -135,6 +141,9 @@ func c04server(c *evid.Ctx) {
 				q, _ := benc.Str(m, "q")
 				per[q+" "+d.To.String()]++
 				total++
+				if why, bad := forbiddenRaw[string(d.To.IP)+fmt.Sprint(d.To.Port)]; bad {
+					c.Violation("server-lookup-queried-filtered-address:"+why, fmt.Sprintf("%s (enforce=%v): %s sent to %v (%s)", op, enforce, q, d.To, why), nil)
+				}
 				if why, bad := forbidden[d.To.String()]; bad {
 					c.Violation("server-lookup-queried-filtered-address:"+why, fmt.Sprintf("%s (enforce=%v): %s sent to %v (%s)", op, enforce, q, d.To, why), nil)
 				}
